@@ -160,6 +160,9 @@ func parseDstTypes(repo string) ([]*genType, error) {
 					continue
 				}
 				gf := genField{Name: nm.Name, Optional: opt}
+				if name == "File" && (nm.Name == "Imports" || nm.Name == "Unresolved") {
+					continue // derived view of the import specs inside Decls, not an independent child list
+				}
 				switch t := fl.Type.(type) {
 				case *ast.StarExpr:
 					id := t.X.(*ast.Ident)
@@ -243,6 +246,7 @@ type vfGen struct {
 	spaces   bool // Before/After symbolic in {0,1,2}
 	symFlags bool // bool fields symbolic
 	symToks  bool // token fields forked over their candidates
+	multiLine bool // forked decorations may also be multi-line block comments (content-bounded)
 	depth    int  // children below this depth are minimal leaves
 	n        int
 }
@@ -284,11 +288,17 @@ func (g *vfGen) decs(typ, point string) Q.Decorations {
 		n := vfChoice(g.nm("ndecs"), g.maxDecs+1)
 		d = make(Q.Decorations, 0, n+g.spare)
 		for i := 0; i < n; i++ {
-			switch vfChoice(g.nm("kind"), 3) {
+			kinds := 3
+			if g.multiLine {
+				kinds = 4
+			}
+			switch vfChoice(g.nm("kind"), kinds) {
 			case 0:
 				d = append(d, "\n")
 			case 1:
 				d = append(d, vfOpaque(g.nm("c"), "//"))
+			case 3:
+				d = append(d, "/*"+vfBytes(g.nm("ml"), 2, "a\n")+"*/")
 			default:
 				d = append(d, vfOpaque(g.nm("c"), "/*")+"*/")
 			}
